@@ -225,9 +225,9 @@ impl ProgGen {
     pub fn value(&self, g: &mut Gen) -> String {
         match self.kind {
             Kind::Fp => {
-                if g.rng.chance(1, 8) {
+                if g.rng.chance(1, 5) {
                     g.count(&format!("{}.value.small", self.prefix));
-                    format!("{}", *g.rng.pick(&[0u64, 1, 2, 3, P - 1, P - 2]))
+                    format!("{}", *g.rng.pick(&[0u64, 0, 1, 1, P - 1, P - 1, 2, 3, P - 2]))
                 } else {
                     g.count(&format!("{}.value.random", self.prefix));
                     format!("{}", g.rng.next() % P)
@@ -744,6 +744,342 @@ pub fn gen_chain(g: &mut Gen, prefix: &str, header: &str, steps: usize) {
     g.op(format!("derivs r{} via=at", k + 1));
 }
 
+// ---------------------------------------------------------------------------------------------
+// DEGENERATE data: operands 0, 1, -1, equal to each other, the same record on both sides
+// ---------------------------------------------------------------------------------------------
+
+/// Small cases in which every binary operator (forms rotating) meets: the same record on both
+/// sides (variable, constant, value 0/1), a variable against the constants 0, 1, -1 and against a
+/// constant / another variable of equal value, in both operand orders; every record∘number and
+/// number∘record form with the numbers 0, 1, -1; the unary functions at 0 and 1; sums of zeros;
+/// and the first few operations recorded a second time.  After every operation `derivs` (so
+/// exactly-zero derivatives, the unused variable and the tape length are observed).
+/// `head`: `@ tape` / `@ trace` / `@ tapes 1`; `ty`: ` fp` / ` rat` / ``.
+pub fn gen_degenerate(g: &mut Gen, prefix: &str, head: &str, ty: &str, kind: Kind) {
+    let minus1 = if kind == Kind::Fp { format!("{}", P - 1) } else { "-1".to_string() };
+    let rnd = |g: &mut Gen| if kind == Kind::Fp { format!("{}", g.rng.next() % P) } else { format!("{}", g.rng.range(2, 9)) };
+    let mut form = 0usize;
+    let mut next_form = |forms: &[&'static str]| { form += 1; forms[form % forms.len()] };
+    let bin_ops: &[&str] = if kind == Kind::Fp { &["add", "sub", "mul", "div", "pow", "binary"] } else { &["add", "sub", "mul", "div", "binary"] };
+    let v0s = [rnd(g), "0".to_string(), "1".to_string(), minus1.clone()];
+    for v0 in &v0s {
+        let leaves = |g: &mut Gen, v0: &str| {
+            g.op(format!("{}{}", head, ty));
+            g.op(format!("var r0 {} t=0 via=record", v0));
+            let v1 = rnd(g);
+            g.op(format!("var r1 {} t=0 via=list", v1));
+            g.op("const r2 0 via=zero".into());
+            g.op("const r3 1 via=one".into());
+            g.op(format!("const r4 {} via=constant", minus1));
+            g.op(format!("const r5 {} via=constant", v0));
+            g.op("var r6 0 t=0 via=record".into());
+            g.op("var r7 1 t=0 via=list".into());
+            g.op(format!("var r8 {} t=0 via=record", v0));
+        };
+        let pairs: [(usize, usize); 22] = [
+            (0, 0), (2, 2), (6, 6), (7, 7), (3, 3), (0, 2), (2, 0), (0, 3), (3, 0), (0, 4), (4, 0),
+            (0, 6), (6, 0), (0, 7), (7, 0), (0, 5), (5, 0), (0, 8), (8, 0), (6, 2), (2, 6), (7, 3),
+        ];
+        for op in bin_ops {
+            g.count(&format!("{}.degenerate.binary.{}", prefix, op));
+            leaves(g, v0);
+            let mut k = 9;
+            let mut emit = |g: &mut Gen, a: usize, b: usize, k: usize| {
+                if *op == "binary" {
+                    g.op(format!("binary r{} r{} r{} fn={}", k, a, b, BINARY_FNS[k % 3]));
+                } else {
+                    g.op(format!("{} r{} r{} r{} via={}", op, k, a, b, next_form(&FORMS4)));
+                }
+                g.op(format!("derivs r{} via={}", k, ["vec", "at", "index"][k % 3]));
+            };
+            for &(a, b) in &pairs {
+                emit(g, a, b, k);
+                k += 1;
+            }
+            // second level: a result against itself and against its own operand
+            emit(g, 9, 9, k);
+            emit(g, k, 0, k + 1);
+            k += 2;
+            // the same computation recorded a second time
+            for &(a, b) in &pairs[..4] {
+                emit(g, a, b, k);
+                k += 1;
+            }
+        }
+        // record∘number, number∘record, unary functions, sums
+        g.count(&format!("{}.degenerate.numbers", prefix));
+        leaves(g, v0);
+        let mut k = 9;
+        let num_ops: &[&str] = if kind == Kind::Fp {
+            &["addn", "subn", "muln", "divn", "subsw", "divsw", "pown", "npow"]
+        } else {
+            &["addn", "subn", "muln", "divn", "subsw", "divsw"]
+        };
+        for op in num_ops {
+            for c in ["0", "1", minus1.as_str()] {
+                for a in [0usize, 2, 6, 7] {
+                    let via = next_form(&FORMS4);
+                    if *op == "npow" {
+                        g.op(format!("npow r{} {} r{} via={}", k, c, a, via));
+                    } else {
+                        g.op(format!("{} r{} r{} {} via={}", op, k, a, c, via));
+                    }
+                    g.op(format!("derivs r{} via=vec", k));
+                    k += 1;
+                }
+            }
+        }
+        let un_ops: &[&str] = if kind == Kind::Fp { &["neg", "sin", "cos", "exp", "ln", "sqrt"] } else { &["neg"] };
+        for op in un_ops {
+            for a in [0usize, 2, 3, 6, 7] {
+                g.op(format!("{} r{} r{} via={}", op, k, a, next_form(&FORMS2)));
+                g.op(format!("derivs r{} via=vec", k));
+                k += 1;
+            }
+        }
+        for f in UNARY_FNS {
+            for a in [0usize, 6, 7, 2] {
+                g.op(format!("unary r{} r{} fn={}", k, a, f));
+                g.op(format!("derivs r{} via=vec", k));
+                k += 1;
+            }
+        }
+        for terms in ["r2,r2,r2", "r6,r6", "r2,r6,r2", "r6,r2,r6,r0", "r0,r0,r0", "r2,r0", "r3,r7,r3"] {
+            g.op(format!("sum r{} {}", k, terms));
+            g.op(format!("derivs r{} via=vec", k));
+            k += 1;
+        }
+        // a chain in which every entry depends on the one variable r0 (r1 stays unused)
+        let mut last = 0;
+        for op in ["mul", "add", "sub", "div"] {
+            g.op(format!("{} r{} r{} r{} via={}", op, k, last, last, next_form(&FORMS4)));
+            last = k;
+            k += 1;
+        }
+        g.op(format!("derivs r{} via=vec", last));
+    }
+}
+
+// ---------------------------------------------------------------------------------------------
+// f64 at degenerate values: implementation vs the documented formulae, evaluated here
+// ---------------------------------------------------------------------------------------------
+//
+//   @ f64 rec|trace <op> <pairing> <x bits> <y bits> via=<form> [adj=inf]     → f64=ok | f64=DIFF …
+//
+// Each line is a case of its own.  The Lean model cannot (and must not) answer these: the driver
+// answers `f64=ok` to every `@ f64` line, the harness compares the implementation run at
+// `Record<f64>` / `Trace<f64>` with the formula the source documents, by `to_bits` (any NaN equals
+// any NaN; +0.0 and -0.0 differ).
+
+pub const F64_VALUES: [f64; 16] = [
+    0.0, -0.0, 1.0, -1.0, f64::INFINITY, f64::NEG_INFINITY, f64::NAN, 5e-324, -5e-324, 2.5, -3.75,
+    1e308, -1e-308, f64::MIN_POSITIVE, 0.5, 1e200,
+];
+
+pub fn same_bits(a: f64, b: f64) -> bool {
+    (a.is_nan() && b.is_nan()) || a.to_bits() == b.to_bits()
+}
+
+pub fn parse_bits(s: &str) -> f64 {
+    f64::from_bits(u64::from_str_radix(s.trim_start_matches("0x"), 16).expect("f64 bits"))
+}
+
+pub fn show_f64(v: f64) -> String {
+    format!("{:?}/0x{:016x}", v, v.to_bits())
+}
+
+/// plain value of `left op right`
+pub fn f64_value(op: &str, l: f64, r: f64) -> f64 {
+    match op {
+        "add" => l + r,
+        "sub" => l - r,
+        "mul" => l * r,
+        "div" => l / r,
+        "pow" => l.powf(r),
+        // unary: `l` is the operand; negation of a variable is documented as `0 - x`
+        // (functions.rs: "d(-x)/dx = -1 (same as d(x - y)/dy for x = 0)")
+        "neg" => 0.0 - l,
+        "sin" => l.sin(),
+        "cos" => l.cos(),
+        "exp" => l.exp(),
+        "ln" => l.ln(),
+        "sqrt" => l.sqrt(),
+        other => panic!("harness: f64 op {}", other),
+    }
+}
+
+/// the local derivatives documented in functions.rs: (d/d left, d/d right)
+pub fn f64_local(op: &str, x: f64, y: f64) -> (f64, f64) {
+    match op {
+        "add" => (1.0, 1.0),
+        "sub" => (1.0, -1.0),
+        "mul" => (y, x),
+        "div" => (1.0 / y, -x / (y * y)),
+        "pow" => (y * x.powf(y - 1.0), x.powf(y) * x.ln()),
+        "neg" => (-1.0, 0.0),
+        "sin" => (x.cos(), 0.0),
+        "cos" => (-x.sin(), 0.0),
+        "exp" => (x.exp(), 0.0),
+        "ln" => (1.0 / x, 0.0),
+        "sqrt" => (1.0 / (2.0 * x.sqrt()), 0.0),
+        other => panic!("harness: f64 op {}", other),
+    }
+}
+
+pub fn is_unary(op: &str) -> bool {
+    matches!(op, "neg" | "sin" | "cos" | "exp" | "ln" | "sqrt")
+}
+
+/// What reverse mode documents: `δy/δx = Σ over the parents (δy/δw · δw/δx)`, accumulated from
+/// zero in tape order — (value, ∂/∂x if x is a variable, ∂/∂y if y is a variable).
+pub fn f64_expect_rec(op: &str, pairing: &str, x: f64, y: f64) -> (f64, Option<f64>, Option<f64>) {
+    if is_unary(op) {
+        let v = if op == "neg" && pairing == "c" { -x } else { f64_value(op, x, 0.0) };
+        let (w, _) = f64_local(op, x, 0.0);
+        return (v, if pairing == "v" { Some(0.0 + 1.0 * w) } else { None }, None);
+    }
+    // number∘record forms (`nv`): the number is the LEFT operand, the record the right one
+    let (l, r) = if pairing == "xx" { (x, x) } else { (x, y) };
+    let v = f64_value(op, l, r);
+    let (wl, wr) = f64_local(op, l, r);
+    match pairing {
+        "vv" => (v, Some(0.0 + 1.0 * wl), Some(0.0 + 1.0 * wr)),
+        "xx" => (v, Some((0.0 + 1.0 * wl) + 1.0 * wr), None),
+        "vc" | "vn" => (v, Some(0.0 + 1.0 * wl), None),
+        "cv" | "nv" => (v, None, Some(0.0 + 1.0 * wr)),
+        "cc" => (v, None, None),
+        other => panic!("harness: f64 pairing {}", other),
+    }
+}
+
+pub fn f64_run_rec(op: &str, pairing: &str, x: f64, y: f64, via: &str) -> Result<(f64, Option<f64>, Option<f64>), PanicKind> {
+    catch(|| {
+        let list = WengertList::<f64>::new();
+        let mk = |is_var: bool, v: f64| if is_var { Record::variable(v, &list) } else { Record::constant(v) };
+        if is_unary(op) {
+            let a = mk(pairing == "v", x);
+            let r = match op {
+                "neg" => op2!(via, &a, Neg::neg),
+                "sin" => op2!(via, &a, Sin::sin),
+                "cos" => op2!(via, &a, Cos::cos),
+                "exp" => op2!(via, &a, Exp::exp),
+                "ln" => op2!(via, &a, Ln::ln),
+                _ => op2!(via, &a, Sqrt::sqrt),
+            };
+            let dx = r.try_derivatives().filter(|_| pairing == "v").map(|d| d[&a]);
+            return (r.number, dx, None);
+        }
+        let (xv, yv) = match pairing {
+            "vv" => (true, true),
+            "vc" | "vn" | "xx" => (true, false),
+            "cv" | "nv" => (false, true),
+            _ => (false, false),
+        };
+        let a = mk(xv, x);
+        let b = mk(yv, y);
+        let r = match (pairing, op) {
+            ("xx", "add") => op4!(via, &a, &a, Add::add),
+            ("xx", "sub") => op4!(via, &a, &a, Sub::sub),
+            ("xx", "mul") => op4!(via, &a, &a, Mul::mul),
+            ("xx", "div") => op4!(via, &a, &a, Div::div),
+            ("xx", _) => op4!(via, &a, &a, Pow::pow),
+            ("vn", "add") => op4!(via, &a, &y, Add::add),
+            ("vn", "sub") => op4!(via, &a, &y, Sub::sub),
+            ("vn", "mul") => op4!(via, &a, &y, Mul::mul),
+            ("vn", "div") => op4!(via, &a, &y, Div::div),
+            ("vn", _) => op4!(via, &a, &y, Pow::pow),
+            ("nv", "sub") => op4!(via, &b, &x, SwappedOperations::sub_swapped),
+            ("nv", "div") => op4!(via, &b, &x, SwappedOperations::div_swapped),
+            ("nv", _) => op4!(via, &x, &b, Pow::pow),
+            (_, "add") => op4!(via, &a, &b, Add::add),
+            (_, "sub") => op4!(via, &a, &b, Sub::sub),
+            (_, "mul") => op4!(via, &a, &b, Mul::mul),
+            (_, "div") => op4!(via, &a, &b, Div::div),
+            (_, _) => op4!(via, &a, &b, Pow::pow),
+        };
+        let d = r.try_derivatives();
+        let dx = d.as_ref().filter(|_| xv).map(|d| d[&a]);
+        let dy = d.as_ref().filter(|_| yv).map(|d| d[&b]);
+        (r.number, dx, dy)
+    })
+}
+
+pub fn f64_compare(got: (f64, Option<f64>, Option<f64>), want: (f64, Option<f64>, Option<f64>)) -> String {
+    let opt = |a: Option<f64>, b: Option<f64>| match (a, b) {
+        (None, None) => true,
+        (Some(a), Some(b)) => same_bits(a, b),
+        _ => false,
+    };
+    if same_bits(got.0, want.0) && opt(got.1, want.1) && opt(got.2, want.2) {
+        return "f64=ok".into();
+    }
+    let sh = |o: Option<f64>| o.map(show_f64).unwrap_or("-".into());
+    // the one deviation on record: an infinite adjoint comes back as NaN (see fixes/F-16)
+    let inf_nan = |a: Option<f64>, b: Option<f64>| match (a, b) {
+        (Some(a), Some(b)) => same_bits(a, b) || (b.is_infinite() && a.is_nan()),
+        (None, None) => true,
+        _ => false,
+    };
+    let class = if same_bits(got.0, want.0) && inf_nan(got.1, want.1) && inf_nan(got.2, want.2) { "inf-adjoint-reported-as-nan" } else { "other" };
+    format!(
+        "f64=DIFF class={} value got={} want={} dx got={} want={} dy got={} want={}",
+        class, show_f64(got.0), show_f64(want.0), sh(got.1), sh(want.1), sh(got.2), sh(want.2)
+    )
+}
+
+pub fn f64_line_rec(toks: &[&str]) -> String {
+    let (op, pairing) = (toks[3], toks[4]);
+    let (x, y) = (parse_bits(toks[5]), parse_bits(toks[6]));
+    let via = opt_arg("via", toks).unwrap_or("ref_ref");
+    match f64_run_rec(op, pairing, x, y, via) {
+        Ok(got) => f64_compare(got, f64_expect_rec(op, pairing, x, y)),
+        Err(k) => panic_str(k),
+    }
+}
+
+/// the `@ f64` lines of one mode (`rec`: C04, `trace`: C05); `expect` tags the lines whose
+/// documented adjoint is infinite
+pub fn gen_f64(g: &mut Gen, prefix: &str, mode: &str, pairings: &[&str], expect: &dyn Fn(&str, &str, f64, f64) -> (f64, Option<f64>, Option<f64>)) {
+    let mut n = 0usize;
+    let mut line = |g: &mut Gen, op: &str, pairing: &str, x: f64, y: f64, forms: &[&'static str]| {
+        n += 1;
+        let via = forms[n % forms.len()];
+        let (_, dx, dy) = expect(op, pairing, x, y);
+        let inf = dx.map(|d| d.is_infinite()).unwrap_or(false) || dy.map(|d| d.is_infinite()).unwrap_or(false);
+        g.count(&format!("{}.f64.{}.{}", prefix, op, pairing));
+        g.op(format!(
+            "@ f64 {} {} {} 0x{:016x} 0x{:016x} via={}{}",
+            mode, op, pairing, x.to_bits(), y.to_bits(), via, if inf { " adj=inf" } else { "" }
+        ));
+    };
+    for op in ["add", "sub", "mul", "div", "pow"] {
+        for pairing in pairings {
+            if *pairing == "nv" && (op == "add" || op == "mul") {
+                continue;
+            }
+            if *pairing == "v" || *pairing == "c" {
+                continue;
+            }
+            for &x in &F64_VALUES {
+                if *pairing == "xx" {
+                    line(g, op, pairing, x, x, &FORMS4);
+                    continue;
+                }
+                for &y in &F64_VALUES {
+                    line(g, op, pairing, x, y, &FORMS4);
+                }
+            }
+        }
+    }
+    for op in ["neg", "sin", "cos", "exp", "ln", "sqrt"] {
+        for pairing in ["v", "c"] {
+            for &x in &F64_VALUES {
+                line(g, op, pairing, x, 0.0, &FORMS2);
+            }
+        }
+    }
+}
+
 /// the LARGE section of C04 / C05 (`header`: `@ tape fp` / `@ trace fp`)
 pub fn gen_large(g: &mut Gen, prefix: &'static str, header: &str) {
     // big sums
@@ -768,6 +1104,9 @@ pub fn gen_large(g: &mut Gen, prefix: &'static str, header: &str) {
 pub fn gen(g: &mut Gen) {
     let (n_fp, n_rat) = if g.thorough { (20000, 4000) } else { (1500, 400) };
     gen_large(g, "c04.fp", "@ tape fp");
+    gen_degenerate(g, "c04.fp", "@ tape", " fp", Kind::Fp);
+    gen_degenerate(g, "c04.rat", "@ tape", " rat", Kind::Rat);
+    gen_f64(g, "c04", "rec", &["vv", "vc", "cv", "xx", "vn", "nv", "cc"], &f64_expect_rec);
     if g.thorough {
         gen_chain(g, "c04.fp", "@ tape fp big", 70_100);
     }
@@ -1071,6 +1410,10 @@ impl Runner {
     pub fn step(&mut self, toks: &[&str]) -> String {
         if toks.is_empty() {
             return "bad-op".into();
+        }
+        if toks[0] == "@" && toks.get(1) == Some(&"f64") {
+            self.case = Case::None;
+            return f64_line_rec(toks);
         }
         if toks[0] == "@" {
             // drop the old case (records, then tapes) before the new one is made
